@@ -85,9 +85,14 @@ fn gen_dup_lines(rng: &mut Rng) -> Vec<String> {
     let n_var = 1 + rng.below(5);
     for _ in 0..n_var {
         let (mut k, mut v, mut w, mut r, mut s) = (base_k.to_owned(), base_v.clone(), base_w.clone(), base_r.to_owned(), base_s.to_owned());
-        match rng.below(9) {
+        let choice = if big && rng.chance(1, 2) { 1 } else { rng.below(9) };
+        match choice {
             0 => k = (*rng.pick(&["a", "b", "z"])).to_owned(),
-            1 => v = if big { rng.pick(BIG).to_string() } else { rng.range(-2, 4).to_string() },
+            1 => v = if big {
+                // mostly the immediate neighbours of the base value
+                let b: i64 = base_v.parse().unwrap_or(0);
+                match rng.below(4) { 0 => b.saturating_add(1).to_string(), 1 => b.saturating_sub(1).to_string(), 2 => b.saturating_add(2).to_string(), _ => rng.pick(BIG).to_string() }
+            } else { rng.range(-2, 4).to_string() },
             2 => w = rng.range(0, 3).to_string(),
             3 => r = (*rng.pick(&["0", "-0.0", "0.0", "-0", "1.5", "nan", "1.50", "15e-1", "1.5000000000000002", "9007199254740993", "9007199254740992", "1e-320", "0.1", "0.10000000000000002"])).to_owned(),
             4 => s = (*rng.pick(&["x", "y", "X"])).to_owned(),
